@@ -150,6 +150,11 @@ type Packet struct {
 
 	// Undefined (type 0)
 	Data []byte
+
+	// XEmptyNonNil is a harness-only switch (not a packet field, ignored by
+	// Diff and String): empty binary values are handed to setters as an
+	// empty non-nil slice instead of nil.
+	XEmptyNonNil bool
 }
 
 func New(typ uint8) Packet {
@@ -256,6 +261,9 @@ func diffValue(path string, a, b reflect.Value) string {
 	case reflect.Struct:
 		for i := 0; i < a.NumField(); i++ {
 			name := a.Type().Field(i).Name
+			if strings.HasPrefix(name, "X") {
+				continue
+			}
 			p := name
 			if path != "" {
 				p = path + "." + name
@@ -318,7 +326,7 @@ func (m Packet) String() string {
 	for i := 0; i < v.NumField(); i++ {
 		f := v.Field(i)
 		name := v.Type().Field(i).Name
-		if name == "Type" {
+		if name == "Type" || strings.HasPrefix(name, "X") {
 			continue
 		}
 		if name == "SubID" {
